@@ -1194,8 +1194,8 @@ class Action:
         if fwd:
             value = args[1]
 
-        if Eups.force and key in Eups.oldEnviron:
-            del Eups.oldEnviron[key]
+        if fwd and Eups.force and key in Eups.oldEnviron:
+            del Eups.oldEnviron[key]    # so that the export is emitted even if the value is unchanged
 
         if fwd:
             value = self.expandEnvironmentalVariable(value, Eups.verbose)
